@@ -331,7 +331,9 @@ func keyString(v Value) (string, bool) {
 		k, ok := keyString(v.V)
 		return "I" + v.T.String() + "/" + k, ok
 	case RT:
-		return "T" + v.T.String(), true
+		// byte/uint8 and rune/int32 are identical types with different spellings
+		ts := strings.ReplaceAll(strings.ReplaceAll(v.T.String(), "byte", "uint8"), "rune", "int32")
+		return "T" + ts, true
 	case Struct:
 		var sb strings.Builder
 		sb.WriteString("{")
